@@ -54,6 +54,29 @@ func runC02(c *Ctx) {
 	} else {
 		r.Fail("X10", "v1:priority.Discipline", "-", "UNRESOLVED-ANCHOR: v1 priority discipline not found")
 	}
+	// X12: valid configurations are accepted
+	r.Doc("X12", "constructors refuse a configuration only on a missing / out-of-range test (v1 priority and simplified, v2 simplified)", 6)
+	checkCtorRefusals(c, c.V1, c.V1.Disc("priority.Discipline"), "X12")
+	checkCtorRefusals(c, c.V1, c.V1.Disc("priority.Simple"), "X12")
+	checkCtorRefusals(c, c.V2, c.V2.Disc("priority/simple.Discipline"), "X12")
+	// X11 (= D2, P2 membership clauses): the list of priorities the scheduler visits holds exactly the
+	// keys of the input table - a key that is in the table but not in the list is never read
+	r.Doc("X11", "(= D2, P2) the list of priorities the scheduler visits holds the registered keys: built from the keys of Opts.Inputs / appended on registration, and removal takes out exactly the removed key", 3)
+	for _, p := range []*Prog{c.V1, c.V2} {
+		pr, err := resolvePrio(p)
+		if err != nil {
+			r.Fail("X11", p.Name+":priority", "-", err.Error())
+			continue
+		}
+		sub := &Ctx{V1: c.V1, V2: c.V2, Tier: c.Tier, R: NewReport("tmp", c.Tier)}
+		checkD2(sub, pr)
+		checkP2(sub, pr)
+		for _, o := range sub.R.Obls {
+			if strings.HasSuffix(o.Key, ".removePriority") || strings.HasSuffix(o.Key, "#append-unique") || strings.HasSuffix(o.Key, "#unregister") || strings.HasSuffix(o.Key, "#list") {
+				r.Check(o.OK, "X11", o.Key, o.Site, o.Detail, o.Detail)
+			}
+		}
+	}
 	for _, p := range []*Prog{c.V1, c.V2} {
 		sr, err := resolveSchedRoles(p)
 		if err != nil {
